@@ -567,6 +567,57 @@ theorem stream_unfiltered_witness : ¬ StreamFiltered := by
   revert this
   decide
 
+/-! ### hydration: every rebuilt provider is filtered with the filters in force now -/
+
+/-- the list branch and the single branch give each element the same treatment -/
+theorem hydrate_branches_agree (m : Nat) (fs : Allow) (files : List (List Str)) :
+    hydrateResults m fs (.multi files) = files.flatMap (fun f => hydrateResults m fs (.single f)) := by
+  induction files with
+  | nil => rfl
+  | cons f rest ih =>
+    simp only [hydrateResults, List.map_cons, List.flatMap_cons, List.singleton_append] at ih ⊢
+    rw [ih]
+
+/-- **hydrate_element_filtered**: whatever the shape of the spec, the i-th rebuilt provider's content
+is the post-filter of the i-th stored file with the filters in force for the spec NOW: one content per
+stored element, each a sub-sequence of its file in which every line contains a current filter string
+(lines the archive kept under an older filter set are dropped), and with budgets above the file's
+length exactly the lines containing a current filter string -/
+theorem hydrate_element_filtered (m : Nat) (fs : Allow) (r : Results) (hfs : fs ≠ []) :
+    hydrateResults m fs r = r.elements.map (fun file => filterContent (readLines m file) fs) ∧
+    ∀ file ∈ r.elements,
+      (filterContent (readLines m file) fs).Sublist file ∧
+      (∀ l ∈ filterContent (readLines m file) fs, ∃ k ∈ keys fs, isInfix k l = true) ∧
+      ((∀ e ∈ fs, ((readLines m file).length : Int) < e.2) →
+        filterContent (readLines m file) fs = grepF (keys fs) (readLines m file)) := by
+  have hr : ∀ file, rebuild m fs file = filterContent (readLines m file) fs :=
+    fun file => (load_offhost_filtered grepF m fs file hfs).1
+  refine ⟨?_, ?_⟩
+  · cases r with
+    | none => rfl
+    | single file => simp [hydrateResults, Results.elements, hr]
+    | multi files => simp [hydrateResults, Results.elements, hr]
+  · intro file _
+    have h := load_offhost_filtered grepF m fs file hfs
+    refine ⟨?_, ?_, ?_⟩
+    · rw [← h.1]; exact h.2.1
+    · rw [← h.1]; exact h.2.2
+    · intro hb; exact large_budgets_keep_every_match _ fs hb
+
+/-- tied to the registry: the filters used are those of a look-up of the spec after the whole history
+(registrations made AFTER the archive was written included), so every kept line contains a string
+some successful registration put in force for the spec -/
+theorem hydrate_uses_filters_in_force (w : World) (rank : Comp → Nat) (hr : rankedBy w rank = true)
+    (ops : List Op) (spec : Comp) (m : Nat) (r : Results) (out : List Str) (l : Str)
+    (hne : (getFilters w (run w ops) spec).2.1 ≠ [])
+    (hout : out ∈ hydrateResults m (getFilters w (run w ops) spec).2.1 r) (hl : l ∈ out) :
+    ∃ k, isInfix k l = true ∧ ∃ d, Reach w spec d ∧ Registered w ops d k := by
+  obtain ⟨h1, _⟩ := hydrate_element_filtered m _ r hne
+  rw [h1, List.mem_map] at hout
+  obtain ⟨file, _, rfl⟩ := hout
+  obtain ⟨k, hk, hi⟩ := kept_matches _ _ l hl
+  exact ⟨k, hi, (get_is_union w rank hr ops spec k).mp hk⟩
+
 /-! ## non-vacuity -/
 
 def exAllow : Allow := [("a".toList, 1), ("b".toList, 2)]
@@ -598,6 +649,9 @@ example : FirstDs exWorld 2 0 := FirstDs.step (by decide) (by decide) (FirstDs.h
 example : Reach exWorld 1 0 := Reach.step (by decide) (by decide) (Reach.here (by decide))
 example : filterContent exLines [("a".toList, 6), ("b".toList, 7)] = grepF ["a".toList, "b".toList] exLines := by decide
 example : specFilterable exWorld 1 = true := by decide
+-- an archive written under the old filter "a", hydrated when only "b" is in force: list and single branch alike
+example : hydrateResults 1000 [("b".toList, 5)] (.multi [["a".toList, "ab".toList], ["a".toList]]) = [["ab".toList], []] := by decide
+example : hydrateResults 1000 [("b".toList, 5)] (.single ["a".toList, "ab".toList]) = [["ab".toList]] := by decide
 -- the truncated-read branch: 3 lines of 4 bytes, limit 6 -> offset 6 falls into line 2, only line 3 is read
 example : isHuge 6 ["a x".toList, "b x".toList, "c x".toList] = true := by decide
 example : readLines 6 ["a x".toList, "b x".toList, "c x".toList] = ["c x".toList] := by decide
